@@ -4,7 +4,7 @@ import re
 
 from . import common as C
 from .runner import Spec
-from .c01 import helping_or_failed
+from .c01 import helping_or_failed, translator_extra, TRANSLATOR_TIE
 
 K = 13
 
@@ -26,7 +26,8 @@ class C02(Spec):
             "step log of prefix and solo run and the number of solo steps (the model's measure mu must bound it). "
             "non-trivial = the solo run contains a failed CAS or a helping CAS (needs more than one loop iteration)")
     trusted_base = ["controlled scheduler harness/csched + verifYield hooks in loom/queue.go (build tag verif)",
-                    "freezing the other goroutines at yield points = suspending them between two shared-memory accesses"]
+                    "freezing the other goroutines at yield points = suspending them between two shared-memory accesses",
+                    TRANSLATOR_TIE]
     assumptions = ["the scheduler is fair to the solo thread only (all other goroutines suspended)",
                    "allocation and garbage collection do not block"]
 
@@ -64,6 +65,7 @@ class C02(Spec):
         if ex and ex.get("stats", {}).get("explore_failed"):
             ctx["broken"].append({"layer": "L2", "what": "drv_msqueue explore did not produce the schedule sets "
                                                           "(transition coverage of the model's state graph not exercised)"})
+        translator_extra(self, ctx)
 
     def nontrivial(self, script, impl):
         solo = impl.partition(" : ")[2]
